@@ -16,6 +16,9 @@
 import Hw.Io.SyntheticTopo
 import Hw.Io.SyntheticDump
 import Hw.Io.SyntheticWFAll
+import Hw.Io.SyntheticWF15
+import Hw.Io.SyntheticOrder4
+import Hw.Io.SyntheticFix2
 import Hw.Io.SyntheticFix
 import Hw.Topo.WF
 import Driver.Topo
@@ -241,9 +244,12 @@ def step (u : Unit) (line : String) : Unit × String :=
                   -- `topoOK`: the side condition of the general well-formedness theorems (Hw.Io.SyntheticWF, C07_build_wf_*):
                   -- every topology the model builds and hwloc agrees with must satisfy it
                   if !mv.isEmpty then (u, "load MODEL-WF-FAIL " ++ ",".intercalate (mv.take 4))
-                  else if !topoOK t || !puOK t || !memOK t || !numaOK t then
+                  else if !topoOK t || !puOK t || !memOK t || !numaOK t || !sibOK t then
                     (u, "load HYP-FAIL" ++ (if topoOK t then "" else " topoOK") ++ (if puOK t then "" else " puOK") ++
-                      (if memOK t then "" else " memOK") ++ (if numaOK t then "" else " numaOK"))
+                      (if memOK t then "" else " memOK") ++ (if numaOK t then "" else " numaOK") ++ (if sibOK t then "" else " sibOK"))
+                  -- C07_order_establishes_sib_partial / C07_buildTopo_sib_normal: `sibOK t` above is `sibNormalOK t && sibMemOK t` by
+                  -- definition (Hw.Syn.sibOK_split, rfl); the PU count is the product of the arities
+                  else if prodL (arities t) != t.puIdx.length then (u, "load HYP-FAIL order")
                   else (u, "load ok regular")
               else
                 let what := if a.levels != t.levels then "levels" else if a.rootMem != t.rootMem then "rootmem"
@@ -286,7 +292,8 @@ def step (u : Unit) (line : String) : Unit × String :=
             -- C07_export_fixpoint_partial (flags NO_ATTRS|IGNORE_MEMORY): the exported string - compared byte for byte with hwloc's -
             -- must be `printDesc` of the level structure, and re-importing it must give back exactly those types and arities
             let fixHyp : String :=
-              if flags ≠ fixFlags then "" else
+              -- ... and C07_export_fixpoint_flags_partial: the same under 11, 14, 15 when these flags change no level name
+              if !(fixFlagsB flags && t.levels.all (nameStable flags)) then "" else
               match specsOf t.levels with
               | none => "no-canonical-name"
               | some specs =>
